@@ -161,6 +161,13 @@ def gen_lime(rng, tier):
         x = fam.dyadic(rng, dim)
         if x not in xs and any(x):
             xs.append(x)
+    if n >= 2 and rng.random() < 0.4:
+        # two inputs of one call with the same shape AND the same multiset of values (a permuted row, a shifted image):
+        # equal sums, norms, histograms — only the content per position tells them apart
+        k = rng.randint(1, dim - 1) if dim > 1 else 0
+        perm = xs[0][k:] + xs[0][:k]
+        if perm not in xs:
+            xs[1] = perm
     mode = rng.choice(["euclidean", "euclidean", "cosine"])
     width = rng.choice([1.0, 2.0, 4.0, 8.0, 45.0, 1.5, 0.75, 3.0]) if mode == "euclidean" else rng.choice([1.0, 2.0, 0.5, 0.25, 45.0, 0.75])
     params = fam.gen_fquad(rng, ncls, dim)
